@@ -102,6 +102,98 @@ func collectArm(name string, body []ast.Stmt) arm {
 	return a
 }
 
+// infra splits the infrastructure imports of a statement list into those ensured on every
+// path that runs the list to its end (statements of the list itself: `x.ensureImport(C)`, or a
+// call of setJ5Ext, which ends in ensureImport(j5ExtImport)) and those ensured only inside a
+// nested if / switch / for / closure.
+func infra(body []ast.Stmt) (uncond, cond []string) {
+	u, c := map[string]bool{}, map[string]bool{}
+	callOf := func(e ast.Expr) (string, bool) {
+		ce, ok := e.(*ast.CallExpr)
+		if !ok {
+			return "", false
+		}
+		se, ok := ce.Fun.(*ast.SelectorExpr)
+		if !ok {
+			return "", false
+		}
+		if se.Sel.Name == "ensureImport" && len(ce.Args) == 1 {
+			if id, ok := ce.Args[0].(*ast.Ident); ok {
+				return id.Name, true
+			}
+			return "(non-constant)", true
+		}
+		if se.Sel.Name == "setJ5Ext" {
+			return "j5ExtImport", true
+		}
+		return "", false
+	}
+	for _, st := range body {
+		direct := false
+		switch x := st.(type) {
+		case *ast.ExprStmt:
+			if n, ok := callOf(x.X); ok {
+				u[n], direct = true, true
+			}
+		case *ast.AssignStmt:
+			if len(x.Rhs) == 1 {
+				if n, ok := callOf(x.Rhs[0]); ok {
+					u[n], direct = true, true
+				}
+			}
+		}
+		if direct {
+			continue
+		}
+		ast.Inspect(st, func(n ast.Node) bool {
+			if e, ok := n.(ast.Expr); ok {
+				if nm, ok := callOf(e); ok {
+					c[nm] = true
+				}
+			}
+			return true
+		})
+	}
+	for k := range u {
+		uncond = append(uncond, k)
+	}
+	for k := range c {
+		if !u[k] {
+			cond = append(cond, k)
+		}
+	}
+	sort.Strings(uncond)
+	sort.Strings(cond)
+	return
+}
+
+type infraRow struct {
+	name         string
+	uncond, cond []string
+}
+
+// typeSwitchInfra: infra() of every arm of the first top-level type switch of fn.
+func typeSwitchInfra(fn *ast.FuncDecl) []infraRow {
+	var out []infraRow
+	for _, st := range fn.Body.List {
+		ts, ok := st.(*ast.TypeSwitchStmt)
+		if !ok {
+			continue
+		}
+		for _, c := range ts.Body.List {
+			cc := c.(*ast.CaseClause)
+			names := caseNames(cc)
+			if len(names) == 0 {
+				names = []string{"default"}
+			}
+			u, cd := infra(cc.Body)
+			out = append(out, infraRow{strings.Join(names, "|"), u, cd})
+		}
+		break
+	}
+	return out
+}
+
 func findFunc(f *ast.File, name string) *ast.FuncDecl {
 	for _, d := range f.Decls {
 		if fd, ok := d.(*ast.FuncDecl); ok && fd.Name.Name == name {
@@ -270,6 +362,37 @@ func genImports(repo string) (string, error) {
 	})
 	sort.Slice(fmts, func(i, j int) bool { return fmts[i].format < fmts[j].format })
 
+	// ---- infrastructure imports: per buildField / buildProperty arm, the `if required` block of
+	// buildProperty, and per function of conversion.go / service.go
+	fieldInfra := typeSwitchInfra(bf)
+	propInfra := typeSwitchInfra(bp)
+	for _, st := range bp.Body.List {
+		if is, ok := st.(*ast.IfStmt); ok {
+			if id, ok := is.Cond.(*ast.Ident); ok && id.Name == "required" {
+				u, c := infra(is.Body.List)
+				propInfra = append(propInfra, infraRow{"if required", u, c})
+			}
+		}
+	}
+	var funcInfra []infraRow
+	for _, file := range []string{"conversion.go", "service.go"} {
+		_, cf, err := gen.ParseFile(filepath.Join(dir, file))
+		if err != nil {
+			return "", err
+		}
+		for _, d := range cf.Decls {
+			fd, ok := d.(*ast.FuncDecl)
+			if !ok || fd.Body == nil {
+				continue
+			}
+			u, c := infra(fd.Body.List)
+			if len(u)+len(c) > 0 {
+				funcInfra = append(funcInfra, infraRow{file + ":" + fd.Name.Name, u, c})
+			}
+		}
+	}
+	sort.Slice(funcInfra, func(i, j int) bool { return funcInfra[i].name < funcInfra[j].name })
+
 	var sb strings.Builder
 	sb.WriteString("From Coq Require Import String List NArith.\nImport ListNotations.\nLocal Open Scope N_scope.\nLocal Open Scope string_scope.\n")
 	sb.WriteString("(* internal/j5s/j5convert/imports.go: string constants (name, value as bytes) *)\n")
@@ -310,6 +433,21 @@ func genImports(repo string) (string, error) {
 	}
 	writeArms("field_arms", "fields.go buildField type switch", fieldArms)
 	writeArms("property_arms", "fields.go buildProperty type switch", propArms)
+	writeInfra := func(name, comment string, rows []infraRow) {
+		fmt.Fprintf(&sb, "(* %s: (where, constants ensured on every path to the end, constants ensured only under a nested condition) *)\n", comment)
+		fmt.Fprintf(&sb, "Definition %s : list (string * list string * list string) := [\n", name)
+		for i, r := range rows {
+			sep := ";"
+			if i == len(rows)-1 {
+				sep = ""
+			}
+			fmt.Fprintf(&sb, "  (%s, %s, %s)%s\n", gen.CoqString(r.name), coqStrList(r.uncond), coqStrList(r.cond), sep)
+		}
+		sb.WriteString("].\n")
+	}
+	writeInfra("field_infra", "fields.go buildField arms, infrastructure imports (setJ5Ext counts as j5ExtImport)", fieldInfra)
+	writeInfra("property_infra", "fields.go buildProperty arms and its `if required` block", propInfra)
+	writeInfra("func_infra", "conversion.go / service.go, per function", funcInfra)
 	sb.WriteString("(* fields.go buildField: format constant -> proto type *)\n")
 	sb.WriteString("Definition format_arms : list (string * string) := [\n")
 	for i, a := range fmts {
